@@ -212,8 +212,9 @@ def run(ctx):
         for r in rec:
             fh.write(json.dumps(r) + "\n")
     with ThreadPoolExecutor(2) as ex:
-        f1 = ex.submit(run_tlc, "Simulator", cfg, spec_dir=SD, env={"CASES_OUT": cases_file}, tag="C32", timeout=3000)
-        f2 = ex.submit(run_tlc, "SimulatorTrace", "SimulatorTrace.cfg", spec_dir=SD, env={"TRACE_FILE": tf}, tag="C32t", timeout=3000)
+        jo = ["-Xmx2g"] if ctx.quick else None        # small runs start faster with a small heap
+        f1 = ex.submit(run_tlc, "Simulator", cfg, spec_dir=SD, env={"CASES_OUT": cases_file}, tag="C32", timeout=3000, java_opts=jo)
+        f2 = ex.submit(run_tlc, "SimulatorTrace", "SimulatorTrace.cfg", spec_dir=SD, env={"TRACE_FILE": tf}, tag="C32t", timeout=3000, java_opts=jo)
         res, rest = f1.result(), f2.result()
     ctx.add_tlc(res, "Simulator exhaustive " + cfg)
     if not res.ok:
